@@ -132,6 +132,12 @@ func (d *decoder) varint() uint64 {
 		return 0
 	}
 	v, n := binary.Uvarint(d.buf)
+	if n <= 0 {
+		// n == 0 means the buffer ended inside the varint, n < 0 that it
+		// overflowed 64 bits. Either way this is not a valid encoding.
+		d.err = io.ErrShortBuffer
+		return 0
+	}
 	d.buf = d.buf[n:]
 	return v
 }
